@@ -172,13 +172,6 @@ func TestPropAccessorRoundTrip(t *testing.T) {
 			defer database.Close()
 			nblocks := rapid.IntRange(1, 3).Draw(rt, "nblocks")
 			used := map[uint64]bool{}
-			type rec struct {
-				h   *core.Header
-				txs []core.Transaction
-				rcs []*core.TransactionReceipt
-				su  *core.StateUpdate
-				cm  *core.BlockCommitments
-			}
 			var recs []rec
 			for i := 0; i < nblocks; i++ {
 				num := rapid.SampledFrom(sparseNumbers).Draw(rt, "num")
@@ -189,228 +182,15 @@ func TestPropAccessorRoundTrip(t *testing.T) {
 					}
 				}
 				used[num] = true
-				ntx := rapid.SampledFrom([]int{0, 0, 1, 2, 3, 5, 12, 40, 0, 1, 2, 3, 5, 12, 23, 24, 25, 256, 257}).Draw(rt, "ntx")
-				if (ntx == 40 || ntx >= 256) && !stats.Thorough() && rapid.IntRange(0, 3).Draw(rt, "keepWide") != 0 {
-					ntx = 12
-				}
-				if ntx >= 23 {
-					c.Labelf("block-with-%d-transactions", ntx)
-				}
-				var txs []core.Transaction
-				var rcs []*core.TransactionReceipt
-				kinds := map[string]bool{}
-				evCount := uint64(0)
-				ver := rapid.SampledFrom(gen.Versions).Draw(rt, "txver")
-				for j := 0; j < ntx; j++ {
-					tx := ch.DrawTx(rt, ver)
-					kinds[fmt.Sprintf("%T/%s", tx, tx.TxVersion().String())] = true
-					r := ch.DrawReceipt(rt, tx)
-					if rapid.IntRange(0, 5).Draw(rt, "nilres") == 0 {
-						r.ExecutionResources = nil
-					}
-					if len(r.Events) > 0 && rapid.IntRange(0, 39).Draw(rt, "wideEvents") == 0 {
-						// event counts around the CBOR array-header widths
-						for want := rapid.SampledFrom([]int{23, 24, 25, 255, 256, 257}).Draw(rt, "nevWide"); len(r.Events) < want; {
-							e := *r.Events[len(r.Events)%3%len(r.Events)]
-							r.Events = append(r.Events, &e)
-						}
-						c.Label("receipt-with-wide-event-list")
-					}
-					evCount += uint64(len(r.Events))
-					txs, rcs = append(txs, tx), append(rcs, r)
-				}
-				h := arbitraryHeader(rt, num, uint64(ntx), evCount)
-				h.EventsBloom = core.EventsBloom(rcs)
-				b := ch.Draw(rt) // for a state diff with every section possibly populated
-				// the feeder adapter stores a contract listed with no changed slot as an entry with an empty slot map, and the
-				// state-diff hash / commitment count such entries: they must come back too
-				if rapid.IntRange(0, 2).Draw(rt, "emptySlotMaps") == 0 {
-					if b.SU.StateDiff.StorageDiffs == nil {
-						b.SU.StateDiff.StorageDiffs = map[felt.Felt]map[felt.Felt]*felt.Felt{}
-					}
-					for j := rapid.IntRange(1, 2).Draw(rt, "nEmpty"); j > 0; j-- {
-						a := rapid.SampledFrom(u.AllAddrs()).Draw(rt, "emptyAddr")
-						if _, has := b.SU.StateDiff.StorageDiffs[a]; !has {
-							b.SU.StateDiff.StorageDiffs[a] = map[felt.Felt]*felt.Felt{}
-							c.Label("storage-diff-entry-without-slots")
-						}
-					}
-				}
-				su := &core.StateUpdate{BlockHash: h.Hash, NewRoot: ptr(gen.Felt().Draw(rt, "nr")), OldRoot: ptr(gen.Felt().Draw(rt, "or")), StateDiff: b.SU.StateDiff}
-				cm := &core.BlockCommitments{TransactionCommitment: ptr(gen.Felt().Draw(rt, "c1")), EventCommitment: ptr(gen.Felt().Draw(rt, "c2")),
-					ReceiptCommitment: ptr(gen.Felt().Draw(rt, "c3")), StateDiffCommitment: ptr(gen.Felt().Draw(rt, "c4")), StateDiffLength: su.StateDiff.Length()}
-				c.Fp("blk %d %s ntx%d %v", num, h.Hash.String(), ntx, len(kinds))
-				if len(kinds) >= 2 {
-					c.NonTrivial("mixed-kinds")
-				}
-				if ntx == 0 {
-					c.NonTrivial("empty-block")
-				}
-				if h.SequencerAddress == nil || h.L1DataGasPrice == nil || h.L2GasPrice == nil || h.L1GasPriceSTRK == nil {
-					c.NonTrivial("nil-optional-field")
-				}
-				err := database.Write(func(w db.Batch) error {
-					if err := core.WriteBlockHeader(w, h); err != nil {
-						return err
-					}
-					if err := core.WriteTransactionsAndReceipts(w, num, txs, rcs); err != nil {
-						return err
-					}
-					if err := core.WriteStateUpdateByBlockNum(w, num, su); err != nil {
-						return err
-					}
-					if err := core.WriteBlockCommitment(w, num, cm); err != nil {
-						return err
-					}
-					return core.WriteL1HandlerMsgHashes(w, txs)
-				})
+				r := drawRec(rt, c, u, ch, num, accessorSizes, true)
+				err := database.Write(func(w db.Batch) error { return writeRec(w, r) })
 				if err != nil {
 					c.Violation("write-failed", "writing block %d: %v", num, err)
 				}
-				recs = append(recs, rec{h, txs, rcs, su, cm})
+				recs = append(recs, r)
 			}
 			for _, r := range recs {
-				num := r.h.Number
-				// headers
-				gh, err := core.GetBlockHeaderByNumber(database, num)
-				if err != nil || !same(gh, r.h) {
-					c.Violation("header-by-number", "block %d: header read back %s (%v) != written %s", num, show(gh), err, show(r.h))
-				}
-				gh2, err := core.GetBlockHeaderByHash(database, r.h.Hash)
-				if err != nil || !same(gh2, r.h) {
-					c.Violation("header-by-hash", "block %d: header by hash %s (%v)", num, show(gh2), err)
-				}
-				n2, err := core.GetBlockHeaderNumberByHash(database, r.h.Hash)
-				if err != nil || n2 != num {
-					c.Violation("number-by-hash", "block %d: number by hash = %d, %v", num, n2, err)
-				}
-				// partial decoders of the header
-				if hh, err := core.GetBlockHeaderHashByNumber(database, num); err != nil || !hh.Equal(r.h.Hash) {
-					c.Violation("partial-header-hash", "block %d: partial hash %v, %v != %s", num, hh, err, r.h.Hash.String())
-				}
-				if rt2, err := core.GetGlobalStateRootByBlockNumber(database, num); err != nil || !rt2.Equal(r.h.GlobalStateRoot) {
-					c.Violation("partial-header-root", "block %d: partial state root %v, %v", num, rt2, err)
-				}
-				if cnt, err := core.GetBlockTransactionCountByNumber(database, num); err != nil || cnt != r.h.TransactionCount {
-					c.Violation("partial-header-txcount", "block %d: partial tx count %d, %v != %d", num, cnt, err, r.h.TransactionCount)
-				}
-				if ts, err := core.GetBlockHeaderTimestampByNumber(database, num); err != nil || ts != r.h.Timestamp {
-					c.Violation("partial-header-timestamp", "block %d: partial timestamp %d, %v != %d", num, ts, err, r.h.Timestamp)
-				}
-				if bl, err := core.GetBlockHeaderEventsBloomByNumber(database, num); err != nil || !same(bl, r.h.EventsBloom) {
-					c.Violation("partial-header-bloom", "block %d: partial bloom differs (%v)", num, err)
-				}
-				if hh, rr, err := core.GetBlockHeaderHashAndStateRootByNumber(database, num); err != nil || !same(hh, r.h.Hash) || !same(rr, r.h.GlobalStateRoot) {
-					c.Violation("partial-header-hash+root", "block %d: partial hash+root %v %v %v", num, hh, rr, err)
-				}
-				// transactions / receipts
-				txs, err := core.GetTransactionsByBlockNumber(database, num)
-				if err != nil || !same(txs, r.txs) {
-					c.Violation("txs-by-block", "block %d: transactions read back differ (%v): %s vs %s", num, err, show(txs), show(r.txs))
-				}
-				rcs, err := core.GetReceiptsByBlockNumber(database, num)
-				if err != nil || !same(rcs, r.rcs) {
-					c.Violation("receipts-by-block", "block %d: receipts read back differ (%v): %s vs %s", num, err, show(rcs), show(r.rcs))
-				}
-				t2, r2, err := core.GetTransactionsAndReceiptsByBlockNumber(database, num)
-				if err != nil || !same(t2, r.txs) || !same(r2, r.rcs) {
-					c.Violation("txs+receipts-by-block", "block %d: combined read differs (%v)", num, err)
-				}
-				blk, err := core.GetBlockByNumber(database, num)
-				if err != nil || !same(blk.Transactions, r.txs) || !same(blk.Receipts, r.rcs) || !same(blk.Header, r.h) {
-					c.Violation("block-by-number", "block %d: GetBlockByNumber differs (%v)", num, err)
-				}
-				hs, err := core.GetTransactionHashesByBlockNumber(database, num)
-				if err != nil || len(hs) != len(r.txs) {
-					c.Violation("tx-hashes", "block %d: %d tx hashes (%v), want %d", num, len(hs), err, len(r.txs))
-				}
-				evs, err := core.GetTransactionEventsByBlockNumber(database, num)
-				if err != nil || len(evs) != len(r.rcs) {
-					c.Violation("tx-events", "block %d: %d event projections (%v), want %d", num, len(evs), err, len(r.rcs))
-				}
-				i := 0
-				for tx, err := range core.GetTransactionsByBlockNumberIter(database, num) {
-					if err != nil || i >= len(r.txs) || !same(tx, r.txs[i]) {
-						c.Violation("txs-iter", "block %d: iterator item %d differs (%v)", num, i, err)
-					}
-					i++
-				}
-				if i != len(r.txs) {
-					c.Violation("txs-iter", "block %d: iterator yielded %d of %d", num, i, len(r.txs))
-				}
-				for i, tx := range r.txs {
-					if !hs[i].Equal(tx.Hash()) {
-						c.Violation("tx-hashes", "block %d tx %d: hash projection %s != %s", num, i, hs[i].String(), tx.Hash().String())
-					}
-					if !same(evs[i], core.TransactionEvents{Events: r.rcs[i].Events, TransactionHash: r.rcs[i].TransactionHash}) {
-						c.Violation("tx-events", "block %d tx %d: events projection %s != receipt's %s", num, i, show(evs[i]), show(r.rcs[i].Events))
-					}
-					g, err := core.GetTransactionByBlockAndIndex(database, num, uint64(i))
-					if err != nil || !same(g, tx) {
-						c.Violation("tx-by-index", "block %d tx %d: %s (%v) != %s", num, i, show(g), err, show(tx))
-					}
-					g2, err := core.GetTransactionByHash(database, (*felt.TransactionHash)(tx.Hash()))
-					if err != nil || !same(g2, tx) {
-						c.Violation("tx-by-hash", "block %d tx %d by hash: %s (%v)", num, i, show(g2), err)
-					}
-					rc, err := core.GetReceiptByBlockAndIndex(database, num, uint64(i))
-					if err != nil || !same(rc, r.rcs[i]) {
-						c.Violation("receipt-by-index", "block %d receipt %d: %s (%v) != %s", num, i, show(rc), err, show(r.rcs[i]))
-					}
-					g3, rc3, err := core.GetTransactionAndReceiptByBlockAndIndex(database, num, uint64(i))
-					if err != nil || !same(g3, tx) || !same(rc3, r.rcs[i]) {
-						c.Violation("tx+receipt-by-index", "block %d index %d differs (%v)", num, i, err)
-					}
-					st, err := core.GetTransactionExecutionStatusByBlockAndIndex(database, num, uint64(i))
-					if err != nil || st.Reverted != r.rcs[i].Reverted || st.RevertReason != r.rcs[i].RevertReason {
-						c.Violation("execution-status", "block %d index %d: status %+v (%v) != receipt's (%v,%q)", num, i, st, err, r.rcs[i].Reverted, r.rcs[i].RevertReason)
-					}
-					// the hash recomputed from the READ-BACK value equals the stored hash (decides nil/empty distinctions the hash depends on)
-					if h, err := core.TransactionHash(g, u.Net); err == nil && !h.IsZero() && !h.Equal(tx.Hash()) {
-						c.Violation("hash-of-read-back-tx", "block %d tx %d (%T v%s): hash recomputed from the read-back value %s != stored %s", num, i, tx, tx.TxVersion().String(), h.String(), tx.Hash().String())
-					}
-					if l1, ok := tx.(*core.L1HandlerTransaction); ok {
-						th, err := core.GetL1HandlerTxnHashByMsgHash(database, l1.MessageHash())
-						if err != nil || !th.Equal(tx.Hash()) {
-							c.Violation("l1-message-lookup", "block %d: L1 handler lookup by message hash = %s, %v", num, th.String(), err)
-						}
-						var eh eth.Hash
-						eh.SetBytes(l1.MessageHash())
-						_ = eh
-					}
-				}
-				// out of range ⇒ not found, never a panic
-				n := uint64(len(r.txs))
-				if _, err := core.GetTransactionByBlockAndIndex(database, num, n); err == nil {
-					c.Violation("index-out-of-range", "block %d: transaction at index %d (one past the end) found", num, n)
-				}
-				if _, err := core.GetReceiptByBlockAndIndex(database, num, n+3); err == nil {
-					c.Violation("index-out-of-range", "block %d: receipt at index %d found", num, n+3)
-				}
-				if _, err := core.GetTransactionExecutionStatusByBlockAndIndex(database, num, n); err == nil {
-					c.Violation("index-out-of-range", "block %d: status at index %d found", num, n)
-				}
-				// state update, commitments
-				su, err := core.GetStateUpdateByBlockNum(database, num)
-				if err != nil || !same(su, r.su) {
-					c.Violation("state-update-by-number", "block %d: state update %s (%v) != %s", num, show(su), err, show(r.su))
-				}
-				if err == nil {
-					if a, b := su.StateDiff.Hash(), r.su.StateDiff.Hash(); !a.Equal(&b) {
-						c.Violation("state-diff-hash", "block %d: hash of read-back state diff %s != written %s", num, a.String(), b.String())
-					}
-					if su.StateDiff.Length() != r.su.StateDiff.Length() {
-						c.Violation("state-diff-length", "block %d: length %d != %d", num, su.StateDiff.Length(), r.su.StateDiff.Length())
-					}
-				}
-				su2, err := core.GetStateUpdateByHash(database, r.h.Hash)
-				if err != nil || !same(su2, r.su) {
-					c.Violation("state-update-by-hash", "block %d: state update by hash differs (%v)", num, err)
-				}
-				cm, err := core.GetBlockCommitmentByBlockNum(database, num)
-				if err != nil || !same(cm, r.cm) {
-					c.Violation("commitments", "block %d: commitments %s (%v) != %s", num, show(cm), err, show(r.cm))
-				}
+				checkRec(database, r, u.Net).report(c)
 			}
 			// a block number never written is not found through every accessor
 			if _, err := core.GetBlockHeaderByNumber(database, 77777777); !errIsNotFound(err) {
